@@ -395,9 +395,10 @@ POW2 = z3.Function("pow2", z3.IntSort(), z3.RealSort())
 
 
 def pow2(it, e):
-    """2**e for symbolic integer e as uninterpreted function with defining axioms supplied
-    by the caller's assumptions (C19)."""
-    return SReal(POW2(lift_int(e)))
+    """2**e for a symbolic integer e: uninterpreted function plus instantiated defining facts (C19)."""
+    t = lift_int(e)
+    pow2_facts(it, t)
+    return SReal(POW2(t))
 
 
 def real_binop(it, op, a, b):
@@ -429,6 +430,101 @@ def real_binop(it, op, a, b):
     raise Unsupported(f"real op {type(op).__name__}")
 
 
+class SIntegral(SReal):
+    """real value known to be the integer term ``k`` (result of floor)"""
+    __slots__ = ("k",)
+
+    def __init__(self, k):
+        self.k = k
+        self.t = z3.ToReal(k)
+
+
+class SLog2(SReal):
+    """log2 of a positive real term ``arg`` (only ever consumed by floor)"""
+    __slots__ = ("arg",)
+
+    def __init__(self, arg):
+        self.arg = arg
+        self.t = z3.Real("log2!opaque")
+
+
+def pow2_facts(it, d):
+    """instances of the defining facts of 2**d for the integer term d (pow2 is an uninterpreted function):
+    exact values on -2..41, positivity, doubling, monotonic bounds outside the table"""
+    key = d.sexpr() if hasattr(d, "sexpr") else str(d)
+    seen = it.notes.setdefault("pow2_terms", set())
+    if key in seen:
+        return
+    seen.add(key)
+    P = POW2
+    fs = [P(d) > 0, P(d + 1) == 2 * P(d)]
+    for k in range(-2, 42):
+        fs.append(z3.Implies(d == k, P(d) == z3.RealVal(2) ** k if k >= 0 else P(d) == z3.Q(1, 2 ** (-k))))
+    fs.append(z3.Implies(d >= 42, P(d) >= z3.RealVal(2 ** 42)))
+    fs.append(z3.Implies(d <= -3, P(d) <= z3.Q(1, 8)))
+    for f in fs:
+        it.pc.append(f)
+
+
+def np_log2(it, x):
+    x = _fold_opt(it, x)
+    if isinstance(x, (int, float)):
+        import math
+        try:
+            return math.log2(x)
+        except ValueError as e:
+            raise _PyExc(e)
+    X = lift_real(x)
+    if not it.decide(X > 0):
+        raise Unsupported("log2 of non-positive")
+    return SLog2(X)
+
+
+def np_floor(it, v):
+    v = _fold_opt(it, v)
+    if isinstance(v, (int, float)):
+        import math
+        return float(math.floor(v))
+    it.fresh_ctr += 1
+    k = z3.Int(f"floor!{it.fresh_ctr}")
+    if isinstance(v, SLog2):
+        # floor(log2(x)) = k  <=>  2**k <= x < 2**(k+1)
+        pow2_facts(it, k)
+        pow2_facts(it, k + 1)
+        it.pc.append(z3.And(POW2(k) <= v.arg, v.arg < POW2(k + 1)))
+        return SIntegral(k)
+    V = lift_real(v)
+    it.pc.append(z3.And(z3.ToReal(k) <= V, V < z3.ToReal(k) + 1))
+    return SIntegral(k)
+
+
+def np_round(it, v, *a):
+    """round half to even (numpy / python 3): integer k with |v - k| <= 1/2 (ties to even)"""
+    v = _fold_opt(it, v)
+    if isinstance(v, (int, float)):
+        return float(round(v))
+    it.fresh_ctr += 1
+    k = z3.Int(f"round!{it.fresh_ctr}")
+    V = lift_real(v)
+    K = z3.ToReal(k)
+    it.pc.append(z3.And(K - V <= z3.Q(1, 2), V - K <= z3.Q(1, 2),
+                        z3.Implies(z3.Or(K - V == z3.Q(1, 2), V - K == z3.Q(1, 2)), k % 2 == 0)))
+    return SIntegral(k)
+
+
+def real_fmod(it, a, b):
+    """C fmod: r = a - trunc(a/b)*b, same sign as a, |r| < |b|   (b > 0 assumed and checked)"""
+    A, B = lift_real(_fold_opt(it, a)), lift_real(_fold_opt(it, b))
+    if not it.decide(B > 0):
+        raise Unsupported("fmod by non-positive")
+    it.fresh_ctr += 1
+    k = z3.Int(f"fmodk!{it.fresh_ctr}")
+    r = z3.Real(f"fmodr!{it.fresh_ctr}")
+    it.add_assumption(z3.And(A == z3.ToReal(k) * B + r,
+                             z3.Implies(A >= 0, z3.And(r >= 0, r < B)), z3.Implies(A < 0, z3.And(r <= 0, r > -B))))
+    return SReal(r)
+
+
 class SRatio(SReal):
     """exact quotient of two integer terms (result of ``int / int``); ``int(q)`` truncates"""
     __slots__ = ("num", "den")
@@ -449,6 +545,7 @@ def real_mod(it, a, b):
     if not it.decide(B > 0):
         raise Unsupported("real modulo by non-positive")
     it.add_assumption(z3.And(A == z3.ToReal(k) * B + r, r >= 0, r < B))
+    it.notes.setdefault("real_mod_calls", []).append((A, B, r))
     return SReal(r)
 
 
@@ -1215,6 +1312,8 @@ def _int(it, *a):
         return v
     if isinstance(v, SBool):
         return mk_int(lift_int(v))
+    if isinstance(v, SIntegral):
+        return mk_int(v.k)
     if isinstance(v, SReal):
         # floor for nonneg (trunc); general: trunc toward zero
         it.fresh_ctr += 1
@@ -1589,16 +1688,27 @@ def _live_list_iter(l):
 
 
 def loop_hook(it, st, sc):
+    """loop contracts from the sidecar, keyed by (function qualname, loop ordinal)"""
     h = getattr(it, "loop_contracts", None)
-    if h:
-        f = h.get((st.lineno,)) or h.get(id(st))
+    if h and sc.fn_node is not None:
+        from .interp import node_ordinal
+        k = node_ordinal(sc.fn_node, st, (ast.For, ast.While))
+        f = h.get((sc.fn_qual, k))
         if f is not None:
-            return f(it, st, sc)
+            f(it, st, sc)
+            return True
     return NotImplemented
 
 
 def comp_hook(it, e, sc):
     """list comprehension over a symbolic range:  [f(i) for i in range(n)]  ->  SymFamily"""
+    h = getattr(it, "comp_contracts", None)
+    if h and sc.fn_node is not None:
+        from .interp import node_ordinal
+        k = node_ordinal(sc.fn_node, e, (ast.ListComp, ast.SetComp, ast.DictComp, ast.GeneratorExp))
+        f = h.get((sc.fn_qual, k))
+        if f is not None:
+            return f(it, e, sc)
     if len(e.generators) == 1 and not e.generators[0].ifs:
         g = e.generators[0]
         src = it.ev(g.iter, sc)
